@@ -697,8 +697,11 @@ func (g *Gen) cellSort(key interface{}) (string, types.Type) {
 		if s, ok := g.ghostT[k]; ok {
 			return s, nil
 		}
+		if s, ok := g.ghostT[strings.TrimPrefix(k, "ghost:")]; ok {
+			return s, g.ghostGoT[strings.TrimPrefix(k, "ghost:")]
+		}
 	}
-	panic(reject("unknown cell kind %T", key))
+	panic(reject("unknown cell kind %T %v", key, key))
 }
 
 func (g *Gen) merge(ins []inEdge) *State {
